@@ -24,7 +24,10 @@ RULE = ("case = (configuration, steering history, storage mode, stop s, composit
         "chain of real run() calls in one directory; oracle: every saved/returned result after a restart equals the "
         "uninterrupted run's result for the same global iteration (1e-10 relative); non-trivial = execution in which some "
         "restart saw a listing that is not in ascending order (distinct (case, listing orders) are counted)")
-ASSUMPTIONS = ["N <= 3 (quick) / 4 (thorough) iterations; restarts happen at iteration boundaries (as in the statement)",
+ASSUMPTIONS = ["N <= 3 (quick) / 4 (thorough) iterations; restarts happen at iteration boundaries (as in the statement); the quick tier adds the bcc "
+               "configuration (run-level merges of sub-cells of different parents) with N=4 and the sorted listing only",
+               "refinement is steered (no two K-points share a value of the criterion) except in the 'ties' configurations, where every K-point "
+               "reports the same criterion and run() itself breaks the ties (>16 K-points, so that numpy's sort is not an insertion sort)",
                "restart_iteration=-1 (default) for the chains; explicit restart_iteration=k (every k < N, every length) after a finished run; the same calculators and grid are passed to every segment",
                "the directory listing is modelled as an arbitrary permutation of the existing files (glob.glob makes no order promise); "
                "file modification times are either untouched or follow the listing order (a copy/restore that does not preserve times)"]
@@ -48,8 +51,15 @@ def configs(tier):
     if tier == "thorough":
         base += [("hexC3", (3, 3, 1), 2, True, 1), ("cubic", (2, 2, 2), 2, False, 2), ("bcc", (2, 2, 2), 2, True, 1)]
     Ns = (2, 3) if tier == "quick" else (2, 3, 4)
+    if tier == "quick":
+        base += [("bcc", (2, 2, 2), 2, True, 1)]   # sub-cells of different parents merge at run level (N=4, pick first only)
     for kind, div, mesh, sym, fac in base:
         for N in Ns:
+            if tier == "quick" and kind == "bcc":
+                if N == 3:
+                    out.append({"sys": kind, "div": list(div), "mesh": mesh, "fac": fac, "irred": sym, "rank": 0, "N": 4, "pick": "first",
+                                "listing_bound": 0})      # sorted listing only: the orders are explored on the other configurations
+                continue
             for pick in ("first", "last"):
                 out.append({"sys": kind, "div": list(div), "mesh": mesh, "fac": fac, "irred": sym, "rank": 0, "N": N, "pick": pick})
     # tied refinement criteria (what symmetric k-points of a real calculator give): every K-point reports the same
@@ -269,7 +279,7 @@ def run_case(case, seed):
         ch = sched.Chooser(case["schedule"])
         gen = [(case["schedule"], 0, execute(case, seed, ch), None)]
     else:
-        gen = sched.explore(lambda ch: execute(case, seed, ch), bound=None)
+        gen = sched.explore(lambda ch: execute(case, seed, ch), bound=case["cfg"].get("listing_bound"))
     for choices, cost, (bad, orders), trace in gen:
         nexec += 1
         unsorted = any(c != 0 for c in choices)
